@@ -10,7 +10,7 @@ late = [sid for sid, m in rows if re.search(r'first (MISSED|UNDECIDED)|would hav
 esc = lambda t: t.replace('|', '\\|')
 txt = '''## 9. Seeded changes (independent sub-agents, each given only the property text and a scratch worktree)
 
-%d changes in six batches. Each was produced by a fresh sub-agent that saw only the property text (plus, from batch 2 on, a one-line
+%d changes in seven batches. Each was produced by a fresh sub-agent that saw only the property text (plus, from batch 2 on, a one-line
 "do not reuse this site" hint naming earlier changes) and its own worktree under /tmp; each was **confirmed** with
 `tools/seed_confirm.sh` (existing suite passes with the change; the demonstration fails with it and passes without it; log in
 `seeded/<id>/confirm.log`) and **evaluated** with `tools/seed_eval.sh` (the change applied in a scratch worktree, the checks pointed at
@@ -32,7 +32,10 @@ blocks that start at an anchor inside the function instead of at its start (C06-
 (C20-2), one address family (C11-3), or cannot see non-termination (C16-3); a harness over one statement where the property spans two
 (C15-1). Checks that share obligations report a seed under every property that claims the obligation (e.g. C13-1 under C13 and C19);
 a property that claims only the safety part of a unit stays undecided, not violated, when only functional clauses fail (C08 on C16-2,
-C01-1).
+C01-1). Batch 7 (after the stage machine came under contract): obligations spliced INTO the code (closure postconditions) need the same
+property tags as contract clauses (C08-4); a driver that replays only genuine traffic cannot replay a decoder bypass (C01-3); where a
+refactoring makes a unit uncompilable and the function as a whole is outside Verus (labelled `continue`), only a node-level driver
+decides (C14-2, C06-4) - two were written (own_addresses.rs, init_negotiation.rs).
 '''
 p = os.path.join(V, 'DESIGN.md')
 s = open(p).read()
